@@ -78,6 +78,32 @@ def sc_uni(inp, rec):
     rec.sample({"kind": "uni", "family": fam.name, "theta": th, "n": n, "first": np.ravel(x)[:3]})
 
 
+def sc_hist(inp, rec):
+    """history draw -> fit -> draw: samples drawn after a fit follow the FITTED parameters (whatever was drawn before,
+    whatever the fit method): they are bit-identical to those of a fresh instance built with the fitted parameters"""
+    fam = FAM[inp["family"]]
+    th = {k: float(v) for k, v in inp["theta"].items()}
+    method = inp["method"]
+    base = f"hist/{fam.name}/draw-fit({method})-draw"
+    rec.key(("hist", fam.name, method), nontrivial=True)
+    try:
+        d = fam.make(th)
+        data = d.draw_sample(int(inp["n_fit"]), random_state=int(inp["seed"]))
+        d.draw_sample(5, random_state=1)  # a draw BEFORE the fit
+        th2 = {k: v * f for (k, v), f in zip(th.items(), (1.3, 0.8, 1.1, 0.9))}
+        d2 = fam.make(th2)
+        d2.draw_sample(5, random_state=1)
+        kw = {} if method == "mle" else {"method": method, "weights": "quadratic" if method == "wlsq" else None}
+        d2.fit(data, **kw)
+        fitted = {k: float(getattr(d2, k)) for k in th}
+        a = d2.draw_sample(1000, random_state=int(inp["seed2"]))
+        b = fam.make(fitted).draw_sample(1000, random_state=int(inp["seed2"]))
+        rec.check(bit_equal(a, b), base + "/law", "samples drawn after a fit follow the fitted parameters",
+                  lambda: f"after fit the parameters are {fitted}; draw_sample of the fitted object gives {np.ravel(a)[:3]!r}, a fresh instance with these parameters {np.ravel(b)[:3]!r}", inp)
+    except Exception as e:
+        rec.check(False, base + "/law", "draw - fit - draw succeeds", "raised " + last_line(e), inp)
+
+
 def sc_cond(inp, rec):
     """ConditionalDistribution.draw_sample directly: scalar given (n draws) and vector given (one draw per element)"""
     spec = inp["spec"]
@@ -183,7 +209,7 @@ def sc_joint(inp, rec):
     rec.sample({"kind": "joint", "model": inp["label"], "n": n, "row0": x[0]})
 
 
-SCENARIOS = {"uni": sc_uni, "cond": sc_cond, "joint": sc_joint}
+SCENARIOS = {"uni": sc_uni, "cond": sc_cond, "joint": sc_joint, "hist": sc_hist}
 
 
 def _perturb(specs, rng):
@@ -220,6 +246,13 @@ def run(tier, seed):
                 sc_uni({"kind": "uni", "family": name, "label": label, "theta": th, "n": n, "seeds": n in (1, 1000), **seeds()}, rec)
         if thorough and name in ("Weibull", "ExponentiatedWeibull", "VonMises"):
             sc_uni({"kind": "uni", "family": name, "label": fam.regimes[0][0], "theta": fam.regimes[0][1], "n": 1000000, "seeds": False, **seeds()}, rec)
+
+    rec.group("history draw -> fit -> draw of every family", "every family x every fit method it offers", "distinct = (family, fit method)")
+    for name in ALL:
+        fam = FAM[name]
+        methods = ["mle"] + (["lsq", "wlsq"] if name == "ExponentiatedWeibull" else [])
+        for m in methods:
+            sc_hist({"kind": "hist", "family": name, "theta": fam.regimes[0][1], "method": m, "n_fit": 400, **seeds()}, rec)
 
     rec.group("ConditionalDistribution.draw_sample (scalar and vector given)", "every conditional dimension of the model library; n in {1, 50000}",
               "distinct = (conditional distribution, n)")
